@@ -733,6 +733,12 @@ func (w *world) runCase(c caseID) (res caseRes) {
 	}
 	defer func() { res.fxStrong = res.fx + res.fxStrong }()
 	res.fx = "?"
+	// Every WASI result is an i32: decode it as the API documents (api.DecodeU32). The compiler's entry
+	// stub stores an i32 result with a 4-byte store into the shared param/result slot, so the upper half
+	// of the raw uint64 can still hold the upper half of the first parameter (e.g. the i64 stack pattern).
+	if cerr == nil && len(rs) == 1 {
+		rs[0] = uint64(uint32(rs[0]))
+	}
 
 	exited := false
 	switch {
